@@ -174,6 +174,36 @@ func (c *Ctx) Var(name string, w int) *Term {
 
 // ---------------------------------------------------------------- bit-vectors
 
+// iteConstTree reports whether t is a constant or an ite whose leaves are all
+// constants (at most 8 leaves): such terms arise from symbolic choices among a
+// few concrete bytes (letter case, separators) and operators are pushed inside.
+func iteConstTree(t *Term, budget *int) bool {
+	if t.Op == OpConst {
+		*budget--
+		return *budget >= 0
+	}
+	if t.Op == OpIte {
+		return iteConstTree(t.Args[1], budget) && iteConstTree(t.Args[2], budget)
+	}
+	return false
+}
+
+func isIteTree(t *Term) bool {
+	if t.Op != OpIte {
+		return false
+	}
+	b := 8
+	return iteConstTree(t, &b)
+}
+
+// liftIte applies f to the leaves of the ite-constant tree t.
+func (c *Ctx) liftIte(t *Term, f func(leaf *Term) *Term) *Term {
+	if t.Op == OpConst {
+		return f(t)
+	}
+	return c.Ite(t.Args[0], c.liftIte(t.Args[1], f), c.liftIte(t.Args[2], f))
+}
+
 func (c *Ctx) bin(op Op, x, y *Term) *Term {
 	if x.W != y.W {
 		panic(fmt.Sprintf("smt: width mismatch %v: %d vs %d", opNames[op], x.W, y.W))
@@ -183,6 +213,12 @@ func (c *Ctx) bin(op Op, x, y *Term) *Term {
 		if v, ok := foldBin(op, w, x.Val, y.Val); ok {
 			return c.BV(w, v)
 		}
+	}
+	if y.IsConst() && isIteTree(x) {
+		return c.liftIte(x, func(l *Term) *Term { return c.bin(op, l, y) })
+	}
+	if x.IsConst() && isIteTree(y) {
+		return c.liftIte(y, func(l *Term) *Term { return c.bin(op, x, l) })
 	}
 	switch op {
 	case OpAdd:
@@ -525,8 +561,8 @@ func (c *Ctx) Extract(x *Term, hi, lo int) *Term {
 			return c.SExt(c.Extract(y, y.W-1, lo), w)
 		}
 	case OpIte:
-		if x.Args[1].IsConst() && x.Args[2].IsConst() {
-			return c.Ite(x.Args[0], c.Extract(x.Args[1], hi, lo), c.Extract(x.Args[2], hi, lo))
+		if isIteTree(x) {
+			return c.liftIte(x, func(l *Term) *Term { return c.Extract(l, hi, lo) })
 		}
 	case OpAnd, OpOr, OpXor:
 		if lo == 0 || x.Args[1].IsConst() {
@@ -553,8 +589,8 @@ func (c *Ctx) ZExt(x *Term, w int) *Term {
 	if x.Op == OpZExt {
 		return c.ZExt(x.Args[0], w)
 	}
-	if x.Op == OpIte && x.Args[1].IsConst() && x.Args[2].IsConst() {
-		return c.Ite(x.Args[0], c.BV(w, x.Args[1].Val), c.BV(w, x.Args[2].Val))
+	if isIteTree(x) {
+		return c.liftIte(x, func(l *Term) *Term { return c.BV(w, l.Val) })
 	}
 	return c.mk(OpZExt, w, 0, "", 0, 0, x)
 }
@@ -574,6 +610,9 @@ func (c *Ctx) SExt(x *Term, w int) *Term {
 	}
 	if x.Op == OpZExt {
 		return c.ZExt(x.Args[0], w)
+	}
+	if isIteTree(x) {
+		return c.liftIte(x, func(l *Term) *Term { return c.SExt(l, w) })
 	}
 	return c.mk(OpSExt, w, 0, "", 0, 0, x)
 }
@@ -654,6 +693,9 @@ func (c *Ctx) Eq(x, y *Term) *Term {
 	if x.IsConst() {
 		x, y = y, x
 	}
+	if y.IsConst() && x.W > 0 && isIteTree(x) {
+		return c.liftIte(x, func(l *Term) *Term { return c.Bool(l.Val == y.Val) })
+	}
 	if x.W == 0 {
 		if y.IsTrue() {
 			return x
@@ -725,6 +767,12 @@ func (c *Ctx) cmp(op Op, x, y *Term) *Term {
 	}
 	if x == y {
 		return c.Bool(op == OpUle || op == OpSle)
+	}
+	if y.IsConst() && isIteTree(x) {
+		return c.liftIte(x, func(l *Term) *Term { return c.cmp(op, l, y) })
+	}
+	if x.IsConst() && isIteTree(y) {
+		return c.liftIte(y, func(l *Term) *Term { return c.cmp(op, x, l) })
 	}
 	switch op {
 	case OpUlt:
